@@ -246,6 +246,15 @@ Definition wit_dup_batch : list op := [OAdd 1 (s_ 120) [(1, 0); (1, 1)]; OAddrs 
 (* between expiry and GC the two stores list different expired peers *)
 Definition wit_peers_slack : list op := [OAdd 1 (s_ 120) [(1, 0)]; OAdvance (s_ 120); OAddrs 1; OPeers].
 
+(* a negative lookahead interval: the window closes before now, expired entries are never visited *)
+Definition wit_neg_look : list op := [OAdd 1 (s_ 120) [(1, 0)]; OAdvance (s_ 120); OGC].
+
+Lemma ds_neg_look_l :
+  ds_ok 0 wit_neg_look = true /\
+  map snd (a_trace a_init wit_neg_look) = [ONone; ONone; OSizes 0 0 0] /\
+  map snd (d_trace (d_init false (s_ (-5))) wit_neg_look) = [ONone; ONone; OSizes 1 0 0].
+Proof. repeat split; vm_compute; reflexivity. Qed.
+
 Lemma ds_hypotheses_needed_l :
   ds_ok 0 wit_subsecond = false /\
   map snd (a_trace a_init wit_subsecond) = [ONone; ONone; OList [1]] /\
